@@ -230,10 +230,10 @@ func init() {
 		"Histories are sequential (one client thread plus badger's own writer/flusher goroutines).",
 		[]Stage{en("crash08", 16, 70, prm("oracle", "c08", "len", 4, "alphabet", "T2 TV TD WB F C R")), sched("crash08c", 2, 16, 30, prm("threads", 2))},
 		[]Stage{en("crash08", 16, 900, prm("oracle", "c08", "len", 5, "alphabet", "T2 TV TD WB F C R GC")), sched("crash08c", 2, 16, 300, prm("threads", 2)), sched("crash08c", 2, 16, 600, prm("threads", 3))})
-	planTable["C09"] = crashPlan("For every write step (WAL and value-log mmap writes, MANIFEST appends) of every history, the written file is torn at EVERY byte offset of the bytes that step changed (remainder as before the step: zeros in the pre-allocated mmap logs; for the MANIFEST both cut short and zero-filled to the new length), all other files as before the step; plain and encrypted. Each image must Open and show a commit-order prefix containing every acknowledged operation, the in-flight transaction present as a whole or not at all.",
+	planTable["C09"] = crashPlan("For every write step (WAL and value-log mmap writes, MANIFEST appends) of every history, the written file is torn at EVERY byte offset of the bytes that step changed (remainder as before the step: for the pre-allocated mmap logs zeros up to the old length and, additionally, the file ending at the cut; for the MANIFEST both cut short and zero-filled to the new length), all other files as before the step; plain and encrypted. Each image must Open and show a commit-order prefix containing every acknowledged operation, the in-flight transaction present as a whole or not at all.",
 		"Torn states are derived from consecutive quiescent snapshots around each write step, so every other file is consistent with the moment of the tear.",
-		[]Stage{en("crash09", 16, 40, prm("oracle", "c08", "len", 2, "alphabet", "T2 TV WB F C")), en("crash09", 16, 60, prm("oracle", "c08", "len", 3, "alphabet", "T2 TV WB F C", "max_per_step", 24)), en("crash09", 16, 40, prm("oracle", "c08", "len", 2, "alphabet", "TV WB F", "encrypt", true, "max_per_step", 64))},
-		[]Stage{en("crash09", 16, 900, prm("oracle", "c08", "len", 4, "alphabet", "T2 TV TD WB F C R")), en("crash09", 16, 600, prm("oracle", "c08", "len", 3, "alphabet", "T2 TV WB F C", "encrypt", true))})
+		[]Stage{en("crash09", 16, 40, prm("oracle", "c08", "len", 2, "alphabet", "T2 TV WB F C")), en("crash09", 16, 40, prm("oracle", "c08", "len", 2, "alphabet", "T2 TV WB", "cut_short", true)), en("crash09", 16, 60, prm("oracle", "c08", "len", 3, "alphabet", "T2 TV WB F C", "max_per_step", 24)), en("crash09", 16, 40, prm("oracle", "c08", "len", 2, "alphabet", "TV WB F", "encrypt", true, "max_per_step", 64, "cut_short", true))},
+		[]Stage{en("crash09", 16, 900, prm("oracle", "c08", "len", 4, "alphabet", "T2 TV TD WB F C R", "cut_short", true)), en("crash09", 16, 600, prm("oracle", "c08", "len", 3, "alphabet", "T2 TV WB F C", "encrypt", true, "cut_short", true))})
 	planTable["C10"] = crashPlan("SyncWrites on. For every persistence step of every history the power-loss image is constructed from the event log (file contents as of the last completed msync/fsync/O_DSYNC write of that inode, directory entries as of the last completed directory fsync) and recovered: it must Open and contain every acknowledged operation as a commit-order prefix.",
 		"Power-loss model: only explicitly synced contents and directory entries survive; file sizes travel with the directory entry; everything present when Open returned is taken as durable.",
 		[]Stage{en("crash10", 16, 80, prm("oracle", "c08", "sync_writes", true, "len", 4, "alphabet", "T2 TV TD WB F C R"))},
